@@ -124,7 +124,8 @@ func checkC18(c *h.Check) {
 			h.FSOp{Name: "check", Argv: []string{"check", "./..."}},
 		)
 		ops = append(ops, h.FSOp{Name: "gen-in-dir", Argv: []string{"gen"}, Dir: "app"})
-		if thorough {
+		if _, has := s.Tree[outP]; thorough || !has {
+			// quick tier: one prefixed generation per history (then the plain output must still be produced as before)
 			ops = append(ops, h.FSOp{Name: "gen-prefix", Argv: []string{"gen", "-output_file_prefix", "p_", "./..."}})
 		}
 		if _, ok := s.Tree[out]; ok {
